@@ -5,10 +5,10 @@ import LoraVerif.Props.TieA.Rx1Offset
 import LoraVerif.Props.TieA.NewChannel
 import LoraVerif.Props.TieA.HandleMacs
 import LoraVerif.Props.TieA.HandleMacsLoop
+import LoraVerif.Props.TieA.PlanMask
 /-!
 # C08 — the module `./check C08` builds: the property theorems (`Props/C08.lean`) together with the
 tie-A equalities between the hand model's constants and the items regenerated from the current
 source (`Props/TieA/C08.lean`).  Kept separate from `Props/C08.lean` so that properties which only
 import C08's lemmas do not inherit its generated units.
-import LoraVerif.Props.TieA.PlanMask
 -/
